@@ -8,6 +8,7 @@ from .arguments import parser as argparse
 from .backends import list_backends
 from .backends.compdb import writer as compdb
 from .build_inputs import Regenerating
+from .builtins.find import FindCacheFile
 from .environment import Environment, EnvVersionError
 from .exceptions import AbortConfigure
 from .platforms.target import platform_info
@@ -226,6 +227,16 @@ def configure(parser, subparser, args, extra):
                         .format(build.bfgfile))
 
     os.makedirs(args.builddir.string(), exist_ok=True)
+
+    # If we're configuring over an existing build directory, forget the cached
+    # `find_files` results first. Otherwise, if this run gets interrupted, a
+    # lazy regeneration could see that those results are unchanged and leave
+    # the build files of the previous configuration in place.
+    try:
+        os.remove(os.path.join(args.builddir.string(),
+                               FindCacheFile.cachefile))
+    except FileNotFoundError:
+        pass
 
     try:
         env, backend = environment_from_args(args)
